@@ -59,6 +59,13 @@ func properties() []*propDef {
 			Assumptions: []string{"shopspring/decimal arithmetic is exact"},
 		},
 		{
+			ID: "C10", Title: "Filtering, projection, subsetting and set functions obey the collection algebra",
+			Rules: []ruleFn{ruleSUB1, ruleSET3, ruleSET1, ruleSET4, ruleORD1, ruleBOOL2, ruleMUT2},
+			Explanation: "SUB1: first/last/tail/skip(n)/take(n) and the indexer are evaluated by SCCP on symbolic collections of 0..4 distinct items for n in {MinInt32,-1..5,MaxInt32} and compared with the positional specification (item identities are tracked through slicing). SET3: exists() = count()>0, exists(p) delegates to Where on the same operands and tests its emptiness, empty() and count() read the length. SET1: where/exclude/distinct append only the current item of one forward range over the input; select splices each projection result. SET4: no value whose error was discarded reaches a collection (null items). ORD1: all/allTrue/anyTrue/… return their all-items verdict after the loop. BOOL2: where/all keep/reject by the singleton-evaluated criterion. MUT2: no in-place filtering of a caller-owned collection.",
+			NotDecided: []string{"equality-based membership on values (distinct/exclude/intersect use system.TryEqual / proto.Equal on run-time values)", "extension(url) = extension.where(url = u) on values"},
+			Assumptions: []string{"positional specification frozen in rules_c10.go"},
+		},
+		{
 			ID: "C11", Title: "Parsing respects FHIRPath precedence, associativity and token boundaries",
 			Rules: []ruleFn{rulePARSE1, rulePARSE23, rulePARSE4, rulePARSE56, rulePAN6, ruleNAV2},
 			Explanation: "PARSE1: the grammar's alternative order and operator sets equal the frozen N1 precedence table; the generated parser's Precpred level per alternative equals the position-derived level, the right operand of every binary alternative is parsed at level+1 (left associativity), token-set bit masks equal the grammar's operator sets, LiteralNames equal the grammar literals (.g4 ↔ generated code sync). PARSE2/3: in every binary visitor Left/Right come from Expression(0)/Expression(1) and the right operand is visited with a reset clone. PARSE4: per operator token the constructed node kind and operation (SCCP with the token pinned) equal the frozen map, and EvaluateX dispatches to method X on every operand type. PARSE5: start rule requires EOF, listeners replace the defaults on lexer and parser, the collected error dominates the success return. PARSE6: String() returns the stored source parameter.",
